@@ -50,6 +50,10 @@ def one():
     return ["vali", 1, None]
 
 
+def IV():
+    return ["interval", {"days": 1}]
+
+
 def crit(x):
     return ["basic", "eq", x, one(), None]
 
@@ -105,6 +109,12 @@ SHAPES = [
     ("ExistsCriterion.container", "T", lambda tb: ["exists", qs([tb], [["field", "k", None, None]])]),
     ("ValueWrapper.value", "t", lambda x: ["vwterm", x]),
     ("AtTimezone.field", "f", lambda x: ["attz", x, "UTC"]),
+    # a table-free Node that is not a Term (Interval) next to A: every parent calls .replace_table on it
+    ("Interval@ArithmeticExpression.right", "t", lambda x: ["arith", "add", x, IV(), None]),
+    ("Interval@ArithmeticExpression.left", "t", lambda x: ["arith", "sub", IV(), x, None]),
+    ("Interval@Function.args", "t", lambda x: ["func", "DATE_ADD", [x, IV()], None]),
+    ("Interval@BasicCriterion.right", "t", lambda x: ["basic", "gt", x, ["arith", "sub", ["func", "NOW", [], None], IV(), None], None]),
+    ("Interval@BetweenCriterion.bounds", "t", lambda x: ["between", x, ["arith", "sub", N(), IV(), None], ["arith", "add", N(), IV(), None], None]),
     ("Values.field", "f", lambda x: ["values", x]),
     ("BitwiseAndCriterion.value", "t", lambda x: ["bitand_t", N(), x]),
     ("HasAny._left_array", "f", lambda x: ["ch_hasany", x, N()]),
